@@ -142,12 +142,23 @@ def drive(test, seed, max_examples, shrink=True, stateful_steps=None):
     except BaseException as e:   # includes Flaky, Unsatisfiable, bugs in the harness
         if isinstance(e, (KeyboardInterrupt, SystemExit)):
             raise
-        # hypothesis may wrap; look for a Violation in the chain
-        c = e
-        while c is not None:
-            if isinstance(c, Violation):
-                return c
-            c = c.__cause__ or c.__context__
+        # hypothesis may wrap (chains, and exception groups for results that differ between the run and
+        # its replay): a Violation that was observed is a violation even if a replay does not reproduce it
+        def find(x, depth=0):
+            if x is None or depth > 6:
+                return None
+            if isinstance(x, Violation):
+                return x
+            for sub in getattr(x, "exceptions", ()) or ():
+                r = find(sub, depth + 1)
+                if r is not None:
+                    return r
+            return find(x.__cause__, depth + 1) or find(x.__context__, depth + 1)
+        v = find(e)
+        if v is not None:
+            if type(e).__name__.startswith("Flaky"):
+                v.msg += "  [observed once; Hypothesis could not reproduce it on replay: the failure depends on process state (e.g. object identity / allocation), not only on the generated case]"
+            return v
         raise HarnessError("unexpected %s in generated test: %s\n%s" % (
             type(e).__name__, e, traceback.format_exc()))
     return None
